@@ -295,6 +295,25 @@ def rule_r4(p, res):
         for prm in f.params[1:]:
             b2 = s.on(prm)
             r.check(not b2, f, b2[0].node if b2 else f.node, "%s modifies its argument `%s`" % (f.short, prm))
+    # add_label *defines* the label: its mask starts empty, it is not the mask an existing label of that name had
+    al = p.own_method("LabelledPointUndirectedGraph", "add_label")
+    da = Defs(al.node)
+    sts = [n for n in walk_own(al.node) if isinstance(n, ast.Assign) and isinstance(n.targets[0], ast.Subscript) and norm(n.targets[0].value).endswith("._labels_to_masks")]
+    msk = None
+    if len(sts) == 1 and isinstance(sts[0].value, ast.Name):
+        msk = da.single(sts[0].value.id)
+    else:
+        for nm, ds in da.defs.items():
+            for k_, v_, st_ in ds:
+                if k_ == "assign" and isinstance(v_, ast.AST) and "_labels_to_masks" in norm(v_):
+                    msk = v_
+    need(msk is not None, "C15.R4: the mask that add_label stores was not found")
+    if "_labels_to_masks" in norm(msk):
+        r.violation(al, stmt_of(msk), "add_label starts from the mask an existing label of that name already has (`%s`): re-defining a label returns the union of its old and new points "
+                    "instead of exactly the given ones" % norm(msk)[:60])
+    else:
+        need(isinstance(msk, ast.Call) and (dotted(msk.func) or "").split(".")[-1] in ("zeros", "zeros_like", "full"), "C15.R4: add_label's mask initialiser `%s` not recognised" % norm(msk)[:50])
+        r.ok({"method": "add_label", "mask": norm(msk)[:50]})
     cp = p.own_method("LabelledPointUndirectedGraph", "copy")
     r.instance(cp)
     s = norm(cp.node)
@@ -324,4 +343,9 @@ WITNESSES = [
             note="a different (but still distinct, complete) re-indexing is not a violation of the clauses C15 states"),
     Witness("C15.W11", "menpo/shape/labelled.py", "LabelledPointUndirectedGraph.without_labels", "if isinstance(labels, str):\n        labels = [labels]", "pass", rule="C15.R3", construct="without_labels", note="seeded change R2-C15-A"),
     Witness("C15.T1", "menpo/landmark/labels/human/hand.py", "hand_ibug_39_to_hand_ibug_39", "thumb_indices = np.arange(0, 5)", "thumb_indices = np.array([0, 1, 2, 3, 4])", kind="T"),
+]
+
+WITNESSES += [
+    Witness("C15.W12", "menpo/shape/labelled.py", "LabelledPointUndirectedGraph.add_label", "mask = np.zeros(self.n_points, dtype=bool)\n    mask[indices] = True\n    new._labels_to_masks[label] = mask",
+            "mask = new._labels_to_masks.setdefault(label, np.zeros(self.n_points, dtype=bool))\n    mask[indices] = True", rule="C15.R4", construct="add_label", note="seeded change R3-C15-A"),
 ]
